@@ -432,7 +432,11 @@ def oracle(line, out, mode):
 
 
 def same(line, io, mo):
-    return False
+    """SRB: the property lists what a status-report bundle must be (valid administrative record, destination, source, lifetime, the
+    report's reference / item / time / reason) and the oracle checks every item of that list on the implementation's bundle; everything
+    else about the bundle (further control flags, CRC types of its blocks, extra blocks, what happens for subjects outside the
+    quantifier) is the implementation's choice and is not compared with the model"""
+    return line.split(" ", 2)[0] == "SRB" or (line.split(" ")[0] in ("D", "R") and line.split(" ")[1] == "SRB")
 
 
 def classify(line, out):
